@@ -862,10 +862,14 @@ pub fn run(w: &Workload, cfg: sched::SimConfig) -> Result<RunOutcome, String> {
     }
     if finding.is_none() && !report.deadlock {
         // evaluations made while the threads were torn down (thread-local destructors)
-        let expected_teardown = exec(&TOp::EvalTree { tree: 0, ctx: CtxSel::Main, entry: 0 }, &sh);
+        // (a panic's message is not available to a thread that is being torn down - the
+        // harness keeps it in a thread-local: panics compare by the fact alone)
+        let without_message = |s: String| if s.starts_with("PANIC:") { "PANIC".to_string() } else { s };
+        let expected_teardown =
+            without_message(exec(&TOp::EvalTree { tree: 0, ctx: CtxSel::Main, entry: 0 }, &sh));
         for (t, slot) in teardown_slots.iter().enumerate() {
             let got = slot.lock().unwrap().clone();
-            if let Some(got) = got {
+            if let Some(got) = got.map(without_message) {
                 if got != expected_teardown {
                     finding = Some(CFinding {
                         class: "evaluation-during-thread-teardown-differs".into(),
